@@ -69,6 +69,11 @@ class DecodeState:
         if bit_length == 0:
             return base_data_type.python_type()
 
+        if base_data_type in (DataType.A_BYTEFIELD, DataType.A_ASCIISTRING, DataType.A_UTF8STRING,
+                              DataType.A_UNICODE2STRING) and bit_length % 8 != 0:
+            raise DecodeError(f"The bit length of byte fields and strings must be a multiple "
+                              f"of 8 (specified bit length: {bit_length})")
+
         if base_data_type == DataType.A_FLOAT32 and bit_length != 32:
             odxraise("The bit length of FLOAT32 values must be 32 bits")
             bit_length = 32
